@@ -4,6 +4,7 @@
 import Depccg.OpsXml
 import Depccg.Print.More
 import Depccg.Print.Html
+import Depccg.Print.Json
 import Depccg.GlueTree
 import Depccg.GlueRun
 import Depccg.Read.Deriv
@@ -36,6 +37,17 @@ def pScored : P (Tree × Str) := fun ts => do
   let (t, ts) ← pTree ts
   pure ((t, s), ts)
 
+/-- a score as the numerator of `k/64`, or `ninf` for the failure placeholder -/
+def pScoredK : P (Tree × Option Int) := fun ts =>
+  match ts with
+  | "ninf" :: rest => do
+    let (t, ts) ← pTree rest
+    pure ((t, none), ts)
+  | _ => do
+    let (k, ts) ← pInt ts
+    let (t, ts) ← pTree ts
+    pure ((t, some k), ts)
+
 partial def encHSkel : HSkel → String
   | .leaf w segs => "L " ++ encStr w ++ " " ++ toString segs.length ++
       String.join (segs.map fun (a, b) => " " ++ encStr a ++ " " ++ encStr b)
@@ -57,6 +69,9 @@ def dispatch (op : String) (ts : List String) : Option String :=
   match op with
   | "json" => some (match pTree ts with
       | some (t, []) => "ok " ++ encJTree (jsonOf t)
+      | _ => "bad-op")
+  | "json_text" => some (match pList (pList pScoredK) ts with
+      | some (b, []) => "ok " ++ encStr (jsonText b)
       | _ => "bad-op")
   | "deriv" => some (printOp derivOf ts)
   | "mathml_cat" => some (match pStr ts with
